@@ -109,6 +109,30 @@ async def run_history(rep, case, sub):
             await cl.close()
 
 
+def crafted_name(device_id, session, ts, n):
+    """A 32-byte name whose last four bytes equal the signature of everything that precedes them in the frame: a
+    'this packet looks signed already' shortcut would then leave the frame unsigned."""
+    from ..ref import crc
+    for k in range(4000):
+        head = f"N{n:03d}-{k:04d}-".ljust(28, "x")
+        unsigned = wire.build("set_name", {"device_id": device_id, "session": session, "ts": ts, "name": head + "????"})[:-4]
+        sig = crc.signature(unsigned[:-4])
+        if all(0x21 <= b <= 0x7E for b in sig):
+            return head + sig.decode("ascii")
+    return None
+
+
+def cases_crafted():
+    out = []
+    for n in range(24):
+        dev_id, sess, ts = f"{(n * 7919 + 13) % (1 << 24):06x}", f"{(n * 104729 + 77) % (1 << 32):08x}", 1_700_000_000 + n * 86_411
+        name = crafted_name(dev_id, sess, ts, n)
+        if name:
+            out.append({"kind": "set_device_name", "args": {"name": name}, "device_id": dev_id, "key": 0x18, "session": sess, "ts": ts,
+                        "login_len": 44, "salt": 1})
+    return out
+
+
 def strat_history():
     from . import c03
     op = st.sampled_from(ops.KINDS).flatmap(lambda k: st.builds(
@@ -134,6 +158,8 @@ def _resolvable(a):
     if "ir" in a:
         a["ir"]["off"] = True
         a["ir"]["density"] = 100
+        a["ir"].pop("lonely_min", None)     # shapes for C15/C16 only: with them some requests have no stored key at all
+        a["ir"].pop("auto_temps", None)
     return a
 
 
@@ -144,6 +170,7 @@ def subchecks(tier):
     for kind in ops.KINDS:
         nn = n if not kind.startswith("breeze") else n // 2
         subs.append(Sub(f"op={kind}", make_body(f"op={kind}"), strategy=strat_for(kind), n=nn, shards=shards))
+    subs.append(Sub("crafted-signature-tail", make_body("crafted-signature-tail"), cases=cases_crafted, shards=4, exhaustive=True))
     subs.append(Sub("histories", lambda rep, case: net.run(run_history(rep, case, "histories")), strategy=strat_history,
                     n=20_000 if tier == "thorough" else 250, shards=16 if tier == "thorough" else 2))
     return subs
